@@ -664,8 +664,42 @@ class Repo:
             self._sentinels = out
         return self._sentinels
 
+    def function_makers(self):
+        """names of package functions whose every return is a lambda: what they return is a plain
+        function (callable, not an int, not a Field, not None)"""
+        if getattr(self, '_makers', None) is None:
+            out = set()
+            for (m, n), fi in self.module_funcs.items():
+                rets = [r for r in ast.walk(fi.node) if isinstance(r, ast.Return)]
+                if rets and all(isinstance(r.value, ast.Lambda) for r in rets):
+                    out.add(n)
+            self._makers = out
+        return self._makers
+
     def walker(self, inline_depth=0, max_paths=4096, recv_types=None, fold=None, tag=None, keep=None, split_ifexp=False):
         sent = self.private_sentinels()
+        makers = self.function_makers()
+        if makers:
+            inner0 = fold
+
+            def fold(t, _inner=inner0):
+                r = _inner(t) if _inner is not None else None
+                if r is not None:
+                    return r
+                neg = False
+                while isinstance(t, ast.UnaryOp) and isinstance(t.op, ast.Not):
+                    t, neg = t.operand, not neg
+                if isinstance(t, ast.Call) and isinstance(t.func, ast.Name) and t.func.id in ('isinstance', 'callable') and t.args:
+                    x = t.args[0]
+                    is_fn = isinstance(x, ast.Lambda) or (isinstance(x, ast.Call) and isinstance(x.func, ast.Name) and x.func.id in makers)
+                    if is_fn:
+                        if t.func.id == 'callable':
+                            return not neg
+                        cl = t.args[1] if len(t.args) > 1 else None
+                        names = [canon(c) for c in (cl.elts if isinstance(cl, ast.Tuple) else [cl])] if cl is not None else []
+                        if names and all(nm in ('int', 'str', 'bytes', 'float', 'bool', 'list', 'tuple', 'dict', 'Field', 'Packet', 'UnaryExpr', 'BinaryExpr', 'NaryExpr', 'Prototype') for nm in names):
+                            return neg
+                return None
         if sent:
             inner = fold
 
